@@ -1133,6 +1133,8 @@ class Engine:
         raise Unsupported(f"truthiness of {v!r}")
 
     def as_seq(self, v, st):
+        if isinstance(v, ObjV) and v.cls == "iterator":
+            return self.iterator_take(v, None)
         if isinstance(v, SeqV):
             return v
         if isinstance(v, ListV):
@@ -1594,6 +1596,10 @@ class Engine:
                 return v
 
             meta = {"captures": captures} if kind == "gen" else {}
+            if isinstance(seq, SeqV) and seq.meta.get("lazy_tag") is not None:
+                if kind != "gen":
+                    raise Unsupported("a view of a stateful iterator is consumed eagerly by a comprehension")
+                meta["lazy_tag"] = seq.meta["lazy_tag"]
             arg = getattr(src, "argsort", None)
             if arg is not None and isinstance(elt, ast.Name) and isinstance(g.target, ast.Tuple) and isinstance(g.target.elts[0], ast.Name) \
                     and g.target.elts[0].id == elt.id and arg[2].meta.get("enumerate_start") == 0:
@@ -1795,6 +1801,28 @@ class Engine:
             if getattr(fv, "contract", None) is not None:
                 return self.call_inner(fv, args, st)
         raise Unsupported("call of a nested def without an inner contract")
+
+    # ---------------------------------------------------- one stateful iterator shared by several lazy views
+    def iterator_take(self, it, k):
+        """ITERATOR-SPLIT: `it = iter(seq)`; islice(it, k) and a later use of `it` itself are LAZY views that
+        take the next k / all remaining items WHEN CONSUMED.  The views are numbered in creation order; they
+        may only be consumed by one itertools.chain(...) call that lists all of them in that order (checked
+        there) - then consumption order equals creation order and the windows below are what CPython yields."""
+        seq = it.fields["seq"]
+        pos = Z(it.fields["pos"])
+        n = seq.n
+        if k is None:
+            hi = n
+        else:
+            kk = Z(k)
+            hi = z3.If(pos + kk > n, n, pos + kk)
+        ln = z3.If(hi > pos, hi - pos, z3.IntVal(0))
+        order = len(it.fields["views"])
+        view = SeqV(ln, lambda i, seq=seq, pos=pos: seq.at(pos + i), "gen", {"lazy_tag": (id(it), order)})
+        it.fields["views"].append(order)
+        it.fields["pos"] = IntV(hi)
+        self.rules_used.add("iterator-split (views of one iterator consumed in creation order by a single chain)")
+        return view
 
     # ---------------------------------------------------- tuples mapped through a sequence, counts
     def map_through(self, seq, tau):
